@@ -36,9 +36,14 @@ CHECKS = {
             {"harnesses": [H + "ZZH1Behaviour"], "flags": VLQ_REDIRECT, "quick": dict(GEN_Q, budget=1, trivia=1, triviakinds=5), "thorough": dict(GEN_Q, trivia=1, triviakinds=3)},
             {"harnesses": [H + "ZZH1Behaviour"], "flags": VLQ_REDIRECT, "quick": {"budget": 0, "stmts": 3, "palette": 12, "nofunc": 1}, "thorough": {"budget": 1, "stmts": 2, "palette": 6, "maxlist": 1, "nofunc": 1}},
             {"harnesses": [H + "ZZH1Behaviour"], "flags": VLQ_REDIRECT, "quick": PAL_Q, "thorough": PAL_T},
+            # if/else with empty blocks and object values / groups as leaves, two statements
+            {"harnesses": [H + "ZZH1Behaviour"], "flags": VLQ_REDIRECT, "quick": {"budget": 1, "stmts": 2, "palette": 12, "palettemask": 19, "maxlist": 1, "nofunc": 1}, "thorough": {"budget": 1, "stmts": 2, "palette": 12, "palettemask": 51, "maxlist": 1, "nofunc": 1}},
+            # comments together with a multi-line backtick string
+            {"harnesses": [H + "ZZH1Behaviour"], "flags": VLQ_REDIRECT, "quick": {"budget": 0, "stmts": 2, "palette": 12, "palettemask": 513, "trivia": 1, "triviakinds": 5, "nofunc": 1}, "thorough": {"budget": 0, "stmts": 3, "palette": 12, "palettemask": 513, "trivia": 2, "triviakinds": 5, "nofunc": 1}},
         ],
     },
     "C14": {
+        "fresh_process": True,
         "assumptions": SCRIPT_ASSUME + GEN_ASSUME + [
             "goroutine schedules are not explored (the executor has no scheduler). Reduction: jobs that only write memory they allocated themselves and only read shared memory that nobody writes are data-race-free and equal to their sequential runs; the premise is decided here: a confinement monitor reports every store, map update or in-place append that targets package-level state of xjs (frozen after package initialisation), a builder after configuration, or a tree during compilation",
             "sequential histories: job A (default) / job B (registered operators at a solver-quantified level, interceptors, tolerant+smart modes) in orders ABA and BAB; one builder building parsers for two buffers alternately and two parsers alive at once; one tree compiled compact/pretty/with map repeatedly and one compiler object reused",
@@ -83,6 +88,8 @@ CHECKS = {
             # statement structure with palette leaves (object/function values, groups, signs, multi-line backtick strings)
             {"harnesses": [H + "ZZH6Pretty"], "flags": VLQ_REDIRECT, "quick": {"budget": 0, "stmts": 3, "palette": 12, "nofunc": 1, "trivia": 0, "indents": 2}, "thorough": {"budget": 1, "stmts": 2, "palette": 6, "maxlist": 1, "nofunc": 1, "trivia": 0, "indents": 1}},
             {"harnesses": [H + "ZZH6Pretty"], "flags": VLQ_REDIRECT, "quick": {"budget": 1, "stmts": 1, "palette": 6, "maxlist": 1, "nofunc": 1, "trivia": 0, "indents": 1}, "thorough": dict(PAL_T, trivia=0, indents=1)},
+            # statement structure (nested if/else/while/for/blocks) with identifier leaves and free empty blocks
+            {"harnesses": [H + "ZZH6Pretty"], "flags": VLQ_REDIRECT, "quick": {"budget": 2, "stmts": 1, "palette": 12, "palettemask": 1, "maxlist": 1, "nofunc": 1, "exprmask": 1, "trivia": 0, "indents": 1}, "thorough": {"budget": 3, "stmts": 1, "palette": 12, "palettemask": 1, "maxlist": 1, "nofunc": 1, "exprmask": 1, "trivia": 0, "indents": 1}},
         ],
     },
     "C07": {
@@ -102,6 +109,9 @@ CHECKS = {
             {"harnesses": [H + "ZZH7Strings"], "quick": {"K": 5, "prefix": 3}, "thorough": {"K": 7, "prefix": 3}},
             {"harnesses": [H + "ZZH7Templates"], "quick": {"K": 4}, "thorough": {"K": 5}},
             {"harnesses": [H + "ZZH7Numbers"], "quick": {"K": 6}, "thorough": {"K": 8}},
+            # literal text through the writer-level pipeline: a multi-line backtick string (space before the line break)
+            # next to comments, in every output configuration (token text of the output must equal the source literal)
+            {"harnesses": [H + "ZZH1Behaviour"], "flags": VLQ_REDIRECT, "quick": {"budget": 0, "stmts": 2, "palette": 12, "palettemask": 513, "trivia": 1, "triviakinds": 5, "nofunc": 1}, "thorough": {"budget": 0, "stmts": 3, "palette": 12, "palettemask": 513, "trivia": 2, "triviakinds": 5, "nofunc": 1}},
         ],
     },
     "C08": {
@@ -129,6 +139,10 @@ CHECKS = {
         "runs": [
             {"harnesses": [H + "ZZH15Comments"], "flags": VLQ_REDIRECT, "quick": dict(GEN_Q, budget=1, trivia=1, triviakinds=5, commentlen=2), "thorough": dict(GEN_Q, trivia=1, triviakinds=5, commentlen=2)},
             {"harnesses": [H + "ZZH15Comments"], "flags": VLQ_REDIRECT, "quick": dict(GEN_Q, budget=1, stmts=1, trivia=2, triviakinds=2, commentlen=1), "thorough": dict(GEN_Q, budget=1, trivia=2, triviakinds=3, commentlen=1)},
+            # comment text next to a multi-line backtick string (the clean-up pass scans the whole output)
+            {"harnesses": [H + "ZZH15Comments"], "flags": VLQ_REDIRECT, "quick": {"budget": 0, "stmts": 2, "palette": 12, "palettemask": 513, "trivia": 1, "triviakinds": 5, "commentlen": 1, "nofunc": 1}, "thorough": {"budget": 0, "stmts": 3, "palette": 12, "palettemask": 513, "trivia": 1, "triviakinds": 5, "commentlen": 2, "nofunc": 1}},
+            # text level: the real lexer attaches the comment
+            {"harnesses": [H + "ZZH15Text"], "quick": {"commentlen": 2}, "thorough": {"commentlen": 3}},
         ],
     },
     "C04": {
@@ -143,6 +157,11 @@ CHECKS = {
             {"harnesses": [H + "ZZH4bCurrentToken"], "flags": VLQ_REDIRECT, "quick": GEN_Q, "thorough": GEN_T},
             {"harnesses": [H + "ZZH4cReentrant"], "flags": VLQ_REDIRECT, "quick": dict(GEN_Q, stmts=1), "thorough": GEN_T},
             {"harnesses": [LX + "ZZH4dTokenInterceptors"], "quick": {"K": 4, "steps": 2}, "thorough": {"K": 5, "steps": 3}},
+            # deep nesting for the re-entrant interceptor: expression statements over {binary (2 levels), unary, group}
+            {"harnesses": [H + "ZZH4cReentrant"], "flags": VLQ_REDIRECT,
+             "quick": {"budget": 3, "stmts": 1, "atoms": 1, "maxlist": 0, "nofunc": 1, "exprmask": 1042, "exprstmtonly": 1, "binlevels": 2},
+             "thorough": {"budget": 4, "stmts": 1, "atoms": 1, "maxlist": 0, "nofunc": 1, "exprmask": 1042, "exprstmtonly": 1, "binlevels": 2}},
+            {"harnesses": [H + "ZZH4eRepeatedBuilds"], "flags": VLQ_REDIRECT, "quick": dict(GEN_Q, budget=1, builds=3), "thorough": dict(GEN_Q, builds=4)},
         ],
     },
     "C05": {
@@ -168,13 +187,19 @@ CHECKS = {
     "C12": {
         "assumptions": GEN_ASSUME + [
             "corruptions decided without a reference parser: (a) truncation at any point where a bracket, paren or brace is open, (b) deletion of any single bracket, paren or brace, (c) removal of the separator and line break between two statements where an operand token is followed by an operand/keyword token; each of these is rejected by every ECMAScript parser (unbalanced delimiters / two operands in a row on one line)",
-            "general single-token deletion (needs a reference recogniser to decide which results are still valid JavaScript) and truncation inside string literals are outside this check",
+            "(e) truncation right after a token with which no program can end: an operator, an opening delimiter, a keyword that needs a continuation, or the ) of an if/while/for header", "(d) truncation inside a string or backtick literal, at text level: `x=` + quote + <= K arbitrary ASCII bytes that the reference scanner R2 reads as an unterminated literal (quoted strings: no raw line break)",
+            "general single-token deletion (needs a reference recogniser to decide which results are still valid JavaScript) is outside this check",
             "positions concrete: token i at line 0, column 2i; 'no earlier than the last intact token' is compared on them",
         ],
         "runs": [
             {"harnesses": [H + "ZZH12Truncate", H + "ZZH12DeleteDelimiter"], "flags": VLQ_REDIRECT,
              "quick": dict(GEN_Q, stmts=1), "thorough": dict(GEN_Q, stmts=2)},
             {"harnesses": [H + "ZZH12Fuse"], "flags": VLQ_REDIRECT, "quick": GEN_Q, "thorough": GEN_T},
+            {"harnesses": [H + "ZZH12Literal"], "quick": {"K": 3}, "thorough": {"K": 5}},
+            {"harnesses": [H + "ZZH12TruncateIncomplete"], "flags": VLQ_REDIRECT, "quick": GEN_Q, "thorough": GEN_T},
+            # statements ending in object/function values, groups, calls ... fused with the next one
+            {"harnesses": [H + "ZZH12Fuse", H + "ZZH12TruncateIncomplete"], "flags": VLQ_REDIRECT,
+             "quick": {"budget": 0, "stmts": 2, "palette": 12, "nofunc": 1}, "thorough": {"budget": 1, "stmts": 2, "palette": 6, "maxlist": 1, "nofunc": 1}},
             {"harnesses": [H + "ZZH12Truncate", H + "ZZH12DeleteDelimiter", H + "ZZH12Fuse"], "flags": VLQ_REDIRECT,
              "quick": dict(GEN_Q, stmts=2, budget=1, smart=1), "thorough": dict(GEN_Q, stmts=2, smart=1)},
         ],
